@@ -11,10 +11,10 @@ SPEC = {
                      "evaluations = trees built; distinct_nontrivial = distinct (graph, weighting) with at least one edge",
                 quick=[("G(0..5) x U", [["--n", n, "--alpha", "U"] for n in range(0, 6)]),
                        ("G(0..5) x A2", [["--n", n, "--alpha", "A2"] for n in range(0, 6)]),
-                       ("G(4) x A3", [["--n", 4, "--alpha", "A3"]]),
+                       ("G(4) x A3", [["--n", 4, "--alpha", "A3"]]), ("G(5) x A3", [["--n", 5, "--alpha", "A3"]]),
+                       ("blob grammar K=3,T=2 x patterns M2, M3", [["--grammar", "blobs:3:2", "--alpha", "M2"], ["--grammar", "blobs:3:2", "--alpha", "M3"]]),
                        ("tie-heavy families x U", [["--families", FAMS_TIES, "--alpha", "U"]])],
                 thorough=[("G(6) x U", [["--n", 6, "--alpha", "U"]]),
-                          ("G(5) x A3", [["--n", 5, "--alpha", "A3"]]),
                           ("G(5) x D", [["--n", 5, "--alpha", "D"]]),
                           ("G(7) x U", [["--n", 7, "--alpha", "U"]]),
                           ("small families x A2", [["--families", "grid:3:3,cube:3,Kb:3:3,wheel:5,prism:3,prism:4,petersen", "--alpha", "A2"]]),
@@ -22,17 +22,19 @@ SPEC = {
     "C13": dict(comp="fvs",
                 rule="every labelled graph of G(n) (no weights involved) and named families; oracle = outputs are distinct vertices, graph minus output is acyclic "
                      "(union-find), nothing emitted for forests. distinct_nontrivial = graphs containing a cycle",
-                quick=[("G(0..6)", [["--n", n] for n in range(0, 7)]), ("families", [["--families", FAMS_TIES + ",grid:6:6,cube:5,K:9,wheel:12"]])],
-                thorough=[("G(7)", [["--n", 7]]), ("G(8) with at most 11 edges", [["--n", 8, "--max-m", 11]])]),
+                quick=[("G(0..6)", [["--n", n] for n in range(0, 7)]), ("families", [["--families", FAMS_TIES + ",grid:6:6,cube:5,K:9,wheel:12"]]),
+                       ("blob grammar K=3,T=3 (hubs with pendant pieces, up to 30 vertices)", [["--grammar", "blobs:3:3"]])],
+                thorough=[("G(7)", [["--n", 7]]), ("G(8) with at most 11 edges", [["--n", 8, "--max-m", 11]]), ("blob grammar K=4,T=3", [["--grammar", "blobs:4:3"]])]),
     "C14": dict(comp="collections",
                 rule="every labelled graph of G(n) x every weighting: Horton, FVS and ISO builders are called directly; every candidate is checked to be two root "
                      "paths meeting only at the root plus a non-tree edge with the recorded weight; FVS and ISO (root, edge) pairs must be Horton pairs; greedy by "
                      "weight with GF(2) independence over each collection must reach the dimension and the reference optimum. evaluations = builder calls; "
                      "distinct_nontrivial = distinct (graph, weighting) with cycle space dimension >= 1",
                 quick=[("G(0..4) x A3", [["--n", n, "--alpha", "A3"] for n in range(0, 5)]), ("G(5) x A2", [["--n", 5, "--alpha", "A2"]]),
-                       ("G(5) x U", [["--n", 5, "--alpha", "U"]]),
+                       ("G(5) x U", [["--n", 5, "--alpha", "U"]]), ("G(5) x A3", [["--n", 5, "--alpha", "A3"]]),
+                       ("blob grammar K=3,T=2 x patterns M2, M3", [["--grammar", "blobs:3:2", "--alpha", "M2"], ["--grammar", "blobs:3:2", "--alpha", "M3"]]),
                        ("tie-heavy families x U", [["--families", "grid:3:3,grid:3:4,cube:3,Kb:3:3,petersen,wheel:6,prism:5,torus:3:3,K:6", "--alpha", "U"]])],
-                thorough=[("G(5) x A3", [["--n", 5, "--alpha", "A3"]]), ("G(6) x U", [["--n", 6, "--alpha", "U"]]), ("G(5) x D", [["--n", 5, "--alpha", "D"]]),
+                thorough=[ ("G(6) x U", [["--n", 6, "--alpha", "U"]]), ("G(5) x D", [["--n", 5, "--alpha", "D"]]),
                           ("small families x A2", [["--families", "grid:3:3,cube:3,Kb:3:3,wheel:5,prism:3,prism:4,petersen", "--alpha", "A2"]]),
                           ("G(6) x A2, m <= 12", [["--n", 6, "--alpha", "A2", "--max-m", 12]]),
                           ("G(7) x U", [["--n", 7, "--alpha", "U"]])]),
@@ -41,7 +43,7 @@ SPEC = {
                      "component count and dimension by union-find, is_on_forest iff index >= dimension, forest edges acyclic and n-c many. "
                      "distinct_nontrivial = distinct (graph, insertion order) with at least one edge",
                 quick=[("G(0..6)", [["--n", n] for n in range(0, 7)]), ("G(0..4) x all edge insertion orders", [["--n", n, "--edge-orders"] for n in range(0, 5)]),
-                       ("families", [["--families", FAMS_TIES + ",grid:6:6,cube:5,K:9"]])],
+                       ("families", [["--families", FAMS_TIES + ",grid:6:6,cube:5,K:9"]]), ("blob grammar K=3,T=3 (many components, isolated vertices)", [["--grammar", "blobs:3:3"]])],
                 thorough=[("G(7)", [["--n", 7]]), ("G(5), m <= 7, all edge insertion orders", [["--n", 5, "--edge-orders", "--max-m", 7]])]),
 }
 
